@@ -57,9 +57,11 @@ def atoiAccepts (s : String) : Bool :=
   | '+' :: ds => allDigits ds && decVal ds < 2 ^ 63
   | ds => allDigits ds && decVal ds < 2 ^ 63
 
+def hasNul (s : String) : Bool := s.toList.any (· == Char.ofNat 0)
+
 /-- `ValidateCounterpartyID`. -/
 def validateCounterpartyID (id : String) (p : Int) : Bool :=
-  id != "" && byteLen id ≤ Gen.maxCounterpartyIDLength &&
+  id != "" && !hasNul id && byteLen id ≤ Gen.maxCounterpartyIDLength &&
     (if p == PROTOCOL_IBC then isValidChannelID id
      else if p == PROTOCOL_CCTP || p == PROTOCOL_HYPERLANE then isCanonicalU32 id
      else if p == PROTOCOL_INTERNAL then true
